@@ -32,6 +32,60 @@ def run(ctx):
     U.netloc_template(ctx, "R5")
     from .c20 import branch_templates
     branch_templates(ctx, "R6")
+    agreement_table(ctx, "R7")
+    # the variants' stems are the stems of the tuple the url function returns: the emitter must not read more of the
+    # tuple than the re-parsed string gives (a scheme-dependent rule sees '' on one side and 'http' on the other)
+    from . import common_lru as L
+    L.rule_model(ctx, "R8")
+    from .c04 import redirect_spellings
+    ctx.rule("R9", "redirect-domain pattern is insensitive to host case and port spelling: the hostname helpers resolve once on the url as written while fingerprint_url resolves again on a lower-cased copy")
+    redirect_spellings(ctx, "R9")
+
+
+AGREE_HOSTS = ["www.a.com", "WWW.A.COM", "a.com.", "www.a.com.", "m.a.co.uk.", "amp-www.a.com", "www.amp-x.com", "fr.a.com", "fr-FR.a.co.uk", "xn--caf-dma.fr", "caf\u00e9.fr", "b.a.co.uk", "a.com..", "mobile.a.com:8080", "127.0.0.1", "localhost"]
+
+
+def agreement_table(ctx, rule):
+    ctx.rule(rule, "model table (helper = url function on representatives): for one host per class {www / m / mobile / amp- prefixes, upper case, trailing root dot(s), language labels, punycode / unicode, multi-label suffix, port, IP, localhost}, normalize_hostname(h) and get_normalized_hostname(url) are the host of normalize_url(url), fingerprint_hostname(h) and get_fingerprinted_hostname(url) are the host of fingerprint_url(url), for strip_suffix off and on (all interpreted; suffix list = the miniature one)")
+    from . import tables as TB
+    repo = ctx.repo
+    nm = repo.mod("normalize_url")
+    fp = repo.mod("fingerprint_url")
+    site_n = nm.site(nm.func("normalize_hostname").node)
+    site_f = fp.site(fp.func("fingerprint_hostname").node)
+
+    def host_of(s):
+        if not isinstance(s, str):
+            return s
+        s = s.split("/", 1)[0].split("?", 1)[0].split("#", 1)[0]
+        s = s.rsplit("@", 1)[-1]
+        if s.startswith("["):
+            return s
+        return s.rsplit(":", 1)[0] if s.rsplit(":", 1)[-1].isdigit() else s
+    n = 0
+    try:
+        for h in AGREE_HOSTS:
+            bare = h.rsplit(":", 1)[0] if h.rsplit(":", 1)[-1].isdigit() else h
+            url = "http://%s/p?x=1" % h
+            want_n = host_of(TB.call_s(repo, "normalize_url", "normalize_url", url))
+            for fname, arg in (("normalize_hostname", bare), ("get_normalized_hostname", url)):
+                got = TB.call_s(repo, "normalize_url", fname, arg)
+                n += 1
+                ctx.ob(rule, "%s/%s" % (fname, h), got == want_n, "%s(%r) gives %r but the host of normalize_url(%r) is %r" % (fname, arg, got, url, want_n), site_n, witness=url)
+            for ss in (False, True):
+                want_f = host_of(TB.call_s(repo, "fingerprint_url", "fingerprint_url", url, strip_suffix=ss))
+                for fname, arg in (("fingerprint_hostname", bare), ("get_fingerprinted_hostname", url)):
+                    got = TB.call_s(repo, "fingerprint_url", fname, arg, strip_suffix=ss)
+                    n += 1
+                    if ss and (want_f in ("", None) or got in ("", None)):
+                        # a host that is exactly a public suffix has no name left: out of the helpers' domain
+                        ctx.ob(rule, "%s/strip_suffix/%s" % (fname, h), True, "", site_f, trivial=True)
+                        continue
+                    ctx.ob(rule, "%s/%s%s" % (fname, "strip_suffix/" if ss else "", h), got == want_f,
+                           "%s(%r, strip_suffix=%s) gives %r but the host of fingerprint_url(%r, strip_suffix=%s) is %r" % (fname, arg, ss, got, url, ss, want_f), site_f, witness=url)
+    except Unknown as e:
+        ctx.undecided(rule, "hostname helpers not interpretable: %s" % e)
+    ctx.require_instances(rule, n, 6 * len(AGREE_HOSTS) - 6, "(helper, host) cells")
 
 
 def host_helpers(ctx, rule, n):
